@@ -6,7 +6,7 @@ package main
 //   api   g = generic constructors (MonadIOJustGenerics / MonadIONewGenerics, T = int)
 //         i = the interface{} methods (MonadIO.Just / MonadIO.New, T = interface{})
 //   tree  J c | V a | N id | W id | H id | HD id | HP id | G id | JM id x | FR t | FL c t b | FC c t b1 b2 | A x c b | O h t | S h t     (see Model/C11.lean)
-//   ops   w (2.1 s pause)
+//   ops   w (2.1 s pause) | X <j> <c> <k> (object j := current.FlatMap(func(x){ log; return OBJECT k }))
 //         r <j> (make object j current; 0 = the value built from the tree) | D <j> <c> <tree> (object j := current.FlatMap(cont c, tree))
 //         sg (Subscribe with OnNext whose effect is held at the first G leaf it runs) | g- (open the gate)
 //         b (nothing) | e (Eval) | s (Subscribe with OnNext) | z (Subscribe without OnNext) | y (Cor.YieldFromIO)
@@ -332,6 +332,7 @@ func c11RunCase[T any](api *c11API[T], t *c11Tree, ops []string, allowSame bool)
 		<-done
 	}
 	pending := 0 // the handler held by a gated subscription in flight (0 = none)
+	queued, qok := 0, false
 	defer func() {
 		if pending != 0 {
 			close(e.gateOpen)
@@ -399,6 +400,20 @@ func c11RunCase[T any](api *c11API[T], t *c11Tree, ops []string, allowSame bool)
 				reg[j] = m.FlatMap(c11Kont(e, api, &c11Tree{kind: "FL", c: c, kids: []*c11Tree{nil, body}}))
 				ob[j], sub[j] = 0, 0
 				return flush()
+			case len(f) == 4 && f[0] == "X" && len(f[1]) == 1 && f[1][0] >= '0' && f[1][0] <= '3' && len(f[3]) == 1 && f[3][0] >= '0' && f[3][0] <= '3':
+				// object j := current.FlatMap(func(x){ log; return OBJECT k }): the continuation hands back an existing object
+				j, k := int(f[1][0]-'0'), int(f[3][0]-'0')
+				c, err := strconv.Atoi(f[2])
+				obj := reg[k]
+				if err != nil || c < 0 || obj == nil {
+					return "bad-op"
+				}
+				reg[j] = m.FlatMap(func(x T) *fpgo.MonadIODef[T] {
+					e.emit("K" + strconv.Itoa(c) + "(" + strconv.Itoa(api.to(x)) + ")")
+					return obj
+				})
+				ob[j], sub[j] = 0, 0
+				return flush()
 			case len(f) != 1:
 				return "bad-op"
 			case op == "sg":
@@ -417,6 +432,7 @@ func c11RunCase[T any](api *c11API[T], t *c11Tree, ops []string, allowSame bool)
 				select {
 				case <-arrived:
 					pending = ob[cur]
+					queued, qok = 0, sub[cur] == 0
 				case <-delivered: // the chain never reached a gate
 					e.mu.Lock()
 					e.gateArmed = false
@@ -426,7 +442,7 @@ func c11RunCase[T any](api *c11API[T], t *c11Tree, ops []string, allowSame bool)
 			case op == "g-":
 				if pending != 0 {
 					close(e.gateOpen)
-					pending = 0
+					pending, queued, qok = 0, 0, false
 				}
 				return flush()
 			case op == "b":
@@ -438,7 +454,10 @@ func c11RunCase[T any](api *c11API[T], t *c11Tree, ops []string, allowSame bool)
 				v := api.to(m.Eval())
 				return "v=" + strconv.Itoa(v) + " " + flush()
 			case op == "s":
-				if sameUnbuffered(ob[cur], sub[cur]) || (pending != 0 && (ob[cur] == pending || sub[cur] == pending)) {
+				if pending != 0 && qok && pending == 3 && sub[cur] == 3 && ob[cur] != 3 && queued < 3 {
+					// the delivery waits in the mailbox of h3 (buffered), which the gated subscription is holding
+					queued++
+				} else if sameUnbuffered(ob[cur], sub[cur]) || (pending != 0 && (ob[cur] == pending || sub[cur] == pending)) {
 					return "bad-op"
 				}
 				m.Subscribe(api.onNext(func(x T) { e.emit("D(" + strconv.Itoa(api.to(x)) + ")") }))
@@ -1003,8 +1022,36 @@ func c11Gen(tier string, rng *rand.Rand, emit func(string)) map[string]interface
 		raw(gtrees[0], sc)
 		gated++
 	}
-	raw(&c11Tree{kind: "FL", c: 1, kids: []*c11Tree{c11Leaf("N", 2), c11Leaf("V", 1)}}, "D 1 11 G 3 ; D 2 12 G 4 ; r 1 ; o1 ; u2 ; sg ; u3 ; r 2 ; o2 ; u0 ; s ; r 1 ; o0 ; y ; g- ; r 2 ; e")
-	gated++
+	// several subscriptions of ONE object in flight at once: the object is subscribed gated (ObserveOn h3, delivering directly) and holds
+	// h3; then the SAME object is re-configured to SubscribeOn(h3) and subscribed again 2–3 times: those effects run now (the gate
+	// stops only the first arrival), their deliveries wait in h3's mailbox; every subscription must deliver the value of its own
+	// evaluation.  (The head tree itself ends in the gate, so no sub-script can leave `sg` without one.)
+	for _, base := range []*c11Tree{c11Leaf("G", 1), {kind: "FL", c: 1, kids: []*c11Tree{c11Leaf("N", 2), c11Leaf("G", 3)}},
+		{kind: "FC", c: 3, kids: []*c11Tree{c11Leaf("N", 1), c11Leaf("G", 2), c11Leaf("G", 3)}}} {
+		for _, mo := range []string{"o0", "o1", "o2"} {
+			for _, mid := range []string{"s ; s", "s ; e ; s ; s", "s ; u0 ; y ; u3 ; s", "D 1 11 V 0 ; r 1 ; " + mo + " ; u3 ; s ; r 0 ; s ; r 1 ; s"} {
+				if mo != "o0" && strings.Contains(mid, "y") {
+					continue
+				}
+				raw(base, "o3 ; u0 ; sg ; "+mo+" ; u3 ; "+mid+" ; g- ; e")
+				gated++
+			}
+		}
+	}
+	// continuations that hand back an existing OBJECT: their own source, an ancestor, a sibling
+	for _, base := range []*c11Tree{c11Leaf("N", 1), c11Leaf("W", 2), {kind: "FL", c: 1, kids: []*c11Tree{c11Leaf("N", 2), c11Leaf("V", 3)}}, c11Leaf("J", 4)} {
+		for _, sc := range []string{
+			"X 1 21 0 ; r 1 ; e ; e",                                           // m.FlatMap(_ => m)
+			"X 1 21 0 ; r 1 ; X 2 22 1 ; r 2 ; e ; s",                          // … and again on the result (source = a derived object)
+			"D 1 11 W 4 ; r 1 ; X 2 22 0 ; r 2 ; e ; r 1 ; e",                  // hands back an ancestor
+			"D 1 11 W 4 ; D 2 12 N 5 ; r 1 ; X 3 23 2 ; r 3 ; e ; o1 ; u2 ; s", // hands back a sibling
+			"X 1 21 0 ; r 1 ; X 1 22 1 ; r 1 ; e",                              // replaces itself by m'.FlatMap(_ => m')
+			"X 1 21 0 ; r 1 ; o1 ; u2 ; s ; y",
+		} {
+			raw(base, sc)
+			dag++
+		}
+	}
 	return map[string]interface{}{
 		"exhaustive": false, "directed_law_cases": directed,
 		"exhaustive_scope": fmt.Sprintf("all trees with <= %d nodes over {J3,V1,N1,N2,W3,H4,FR,FL,FC,A,O1,S2} x %d scripts", maxNodes, len(c11Scripts)),
